@@ -137,6 +137,9 @@ type Case struct {
 	Zone int `json:"zone_hours,omitempty"`
 	// Params: a non-empty parameter dictionary is passed (its names do not occur in the layout)
 	Params bool `json:"with_parameters,omitempty"`
+	// Empty: the layout has neither steps nor inspections (nothing else to verify); Named: a summary name is passed
+	Empty bool `json:"empty_layout,omitempty"`
+	Named bool `json:"summary_name,omitempty"`
 }
 
 func silence() func() {
@@ -150,6 +153,9 @@ func silence() func() {
 func execute(c *mcx.Ctx, cs Case) (acc []bool, markers []int) {
 	sup := gen.NewSupply(c.Work, 2, 1, cs.DSSE)
 	sup.Layout.Expires = cs.Expires
+	if cs.Empty {
+		sup.Layout.Steps, sup.Layout.Inspect = nil, nil
+	}
 	owner := gen.Key("ed5")
 	md, err := gen.Wrap(sup.Layout, cs.DSSE, owner.Full)
 	if err != nil {
@@ -182,7 +188,11 @@ func execute(c *mcx.Ctx, cs Case) (acc []bool, markers []int) {
 		} else {
 			intoto.VerifNowHook = nil
 		}
+		if cs.Named {
+			gen.SummaryName = "release"
+		}
 		_, err := gen.VerifyAt(c.Work, cs.Entry, md, keys, sup.LinkDir, params, nil)
+		gen.SummaryName = ""
 		intoto.VerifNowHook = nil
 		c.Impl(1)
 		acc = append(acc, err == nil)
@@ -226,6 +236,12 @@ func judge(c *mcx.Ctx, cs Case) (obs, sig, class string) {
 	if cs.Params {
 		wr += "|with-parameters"
 	}
+	if cs.Empty {
+		wr += "|layout-without-steps-and-inspections"
+	}
+	if cs.Named {
+		wr += "|summary-name-given"
+	}
 	for i := range acc {
 		now := time.Now().UTC()
 		if len(cs.Clock) > 0 {
@@ -251,7 +267,7 @@ func judge(c *mcx.Ctx, cs Case) (obs, sig, class string) {
 			sig = fmt.Sprintf("C06|rejected-future|%s|%s|entry=%d%s", cs.Class, wr, cs.Entry, hist)
 		case !acc[i] && markers[i] > 0:
 			sig = fmt.Sprintf("C06|inspection-ran-although-rejected|%s|%s|entry=%d%s", cs.Class, wr, cs.Entry, hist)
-		case acc[i] && markers[i] == 0:
+		case acc[i] && markers[i] == 0 && !cs.Empty:
 			sig = fmt.Sprintf("C06|accepted-without-running-inspection|%s|%s|entry=%d%s", cs.Class, wr, cs.Entry, hist)
 		}
 		if class != "dontcare" {
@@ -298,6 +314,8 @@ func run(c *mcx.Ctx) {
 				do(Case{Expires: e.Text, Class: e.Class, DSSE: dsse, Entry: entry, Clock: []string{ts}, Zone: -8})
 				do(Case{Expires: e.Text, Class: e.Class, DSSE: dsse, Entry: entry, Clock: []string{ts}, Zone: 9})
 				do(Case{Expires: e.Text, Class: e.Class, DSSE: dsse, Entry: entry, Clock: []string{ts}, Params: true})
+				do(Case{Expires: e.Text, Class: e.Class, DSSE: dsse, Entry: entry, Clock: []string{ts}, Empty: true})
+				do(Case{Expires: e.Text, Class: e.Class, DSSE: dsse, Entry: entry, Clock: []string{ts}, Named: true})
 			}
 			// 2. clock histories on one process: every sequence of <= 3 instants over {T-1h, T, T+1h} x two expiries in between
 			inst := []string{T.Add(-time.Hour).Format(time.RFC3339), ts, T.Add(time.Hour).Format(time.RFC3339)}
@@ -358,7 +376,7 @@ func init() {
 	mcx.Register(&mcx.Driver{
 		ID: "C06", Run: run, Replay: replay, Workers: 8,
 		Rule: "full product: expiry catalogue (instants from T-50y to year 9999 in the exact schema incl. T-1s/T/T+1s; the same instants as RFC3339 with offsets, lower-case z, no suffix, space separator, date only, fractional, RFC1123, Unix seconds, padded; one-digit hour earlier today / yesterday / tomorrow; impossible dates; 5-digit/zero years; empty/blank/arbitrary) " +
-			"each also with the process (time.Local and the clock's time value) in UTC-8 and UTC+9 and with a non-empty parameter dictionary; plus expiry histories in one process: every ordered pair of catalogue entries as three successive verifications (first, second, second again; quick: legacy wrapper and InTotoVerify, thorough: all four) " +
+			"each also with the process (time.Local and the clock's time value) in UTC-8 and UTC+9 with a non-empty parameter dictionary, with a layout that has neither steps nor inspections, and with a summary name passed; plus expiry histories in one process: every ordered pair of catalogue entries as three successive verifications (first, second, second again; quick: legacy wrapper and InTotoVerify, thorough: all four) " +
 			"x {legacy, DSSE} x {InTotoVerify, InTotoVerifyWithDirectory} on an otherwise accepting 2-step chain with one marker inspection, with the package clock owned (fixed at T=2030-06-15T12:00:00Z); plus every sequence of 2 (thorough: 3) verifications in one process with the clock at {T-1h, T, T+1h} and expiries in between; plus four real-clock cases a day or more away from now. " +
 			"A case is distinct by construction; non-trivial = the reference decides it (expiry equal to now and fractional seconds are don't-care). states = cases, transitions = verifications.",
 		Assumptions: []string{
